@@ -56,6 +56,7 @@ def generate(rng, prop, tier):
     n_est = 1
     n_fits = 0
     dropped = False
+    saved, saved_ever, saved_fields = set(), False, {}
     n_ops = rng.randint(6, 14 if tier == "quick" else 30)
     p_fit = 0.12 if prop == "C17" else 0.03
     if "linear" not in d.get("tags", []) and d["name"] == "swarm":
@@ -82,13 +83,31 @@ def generate(rng, prop, tier):
         elif r < 0.7:
             ops.append({"op": "clone", "est": tgt, "faults": []})
             n_est += 1
-        elif r < 0.77:
+        elif r < 0.73:
             ops.append({"op": "set_params_roundtrip", "est": tgt, "faults": []})
+        elif r < 0.77:
+            # get_params() kept by the caller, the estimator varied, then put back from the kept parameters (and varied again)
+            if dropped:
+                continue
+            if tgt in saved:
+                ops.append({"op": "restore_params", "est": tgt, "faults": []})
+                saved.discard(tgt)
+                other = [f for f in sorted(CONFIG_FIELDS) if f not in saved_fields.get(tgt, [])]
+                if other:
+                    f = rng.choice(other)
+                    ops.append({"op": "set_params_config", "est": tgt, "fields": {f: rng.choice(CONFIG_FIELDS[f])}, "faults": ["after_restore"]})
+            else:
+                ops.append({"op": "save_params", "est": tgt, "faults": []})
+                saved.add(tgt)
+                saved_ever = True
+                fields = rng.sample(sorted(CONFIG_FIELDS), rng.choice([1, 2]))
+                saved_fields[tgt] = fields
+                ops.append({"op": "set_params_config", "est": tgt, "fields": {f: rng.choice(CONFIG_FIELDS[f]) for f in fields}, "faults": []})
         elif r < 0.87:
             fields = rng.sample(sorted(CONFIG_FIELDS), rng.choice([1, 1, 2, 2, 3]))
             rng.shuffle(fields)
             ops.append({"op": "set_params_config", "est": tgt, "fields": {f: rng.choice(CONFIG_FIELDS[f]) for f in fields}, "faults": []})
-        elif r < 0.89 and len(d["sensors"]) >= 2 and prop == "C17" and not dropped:
+        elif r < 0.89 and len(d["sensors"]) >= 2 and prop == "C17" and not dropped and not saved_ever:
             dropped = True
             ops.append({"op": "drop_last_sensor", "est": 0, "faults": []})
             if n_fits < (2 if tier == "quick" else 5) and p_fit > 0:
@@ -278,6 +297,7 @@ def execute(schedule) -> Result:
             mats[k_] = np.array(vals, dtype=float)
         if kind_ != "float64":
             res.stats[f"fault:matrix_{kind_}"] += 1
+    kept = {}  # estimator index -> (get_params() kept by the caller, snapshot at that time)
     first = {}  # op index -> (kind, est index, X name, explain, value bytes, params snapshot at that time)
     seam = MinimizeSeam(getattr(python, "minimize", None) or __import__("scipy.optimize", fromlist=["minimize"]).minimize)
     had_name = hasattr(python, "minimize")
@@ -359,6 +379,18 @@ def execute(schedule) -> Result:
                 pool.append(c)
                 defs.append(json.loads(json.dumps(d)))
                 res.abstract.append("clone")
+            elif kind == "save_params":
+                kept[ei] = (est.get_params(), before)
+                res.abstract.append("save")
+            elif kind == "restore_params":
+                if ei not in kept:
+                    continue
+                params_, snap_ = kept.pop(ei)
+                est.set_params(**params_)
+                if snapshot(est) != snap_:
+                    res.add("C17", "restore", "C17:py:restore_from_kept_params", i, "set_params(**params kept from an earlier get_params()) restores exactly those parameters", _diffkeys(snap_, snapshot(est)))
+                res.stats["probe:restore_from_kept_params"] += 1
+                res.abstract.append("restore")
             elif kind == "set_params_roundtrip":
                 est.set_params(**est.get_params())
                 if snapshot(est) != before:
